@@ -2,11 +2,14 @@ package main
 
 import (
 	"bufio"
+	"bytes"
 	"encoding/json"
 	"fmt"
 	"io"
 	"net"
 	"net/http"
+	"os"
+	"os/exec"
 	"strings"
 	"sync"
 	"testing"
@@ -16,6 +19,7 @@ import (
 	"github.com/0xReLogic/Helios/internal/config"
 	"github.com/0xReLogic/Helios/internal/zzverif/vres"
 	"github.com/0xReLogic/Helios/internal/zzverif/wire"
+	"gopkg.in/yaml.v3"
 )
 
 // C13 (wire part): the outcome alphabet produced by real faults over real connections (an
@@ -37,6 +41,14 @@ type c13wMetrics struct {
 }
 
 func c13wRun(seq []string, concurrent int) (key, what, outcome string) {
+	return c13Run(seq, concurrent, "")
+}
+
+// c13Run: bin == "" runs the instance in this process (startHelios, the admin handler on a
+// spoofing listener); otherwise the real binary is started from a YAML file with the proxy, the
+// Admin API and the metrics listener on, and the numbers are read from its Admin API port - and
+// must be the same on its metrics port.
+func c13Run(seq []string, concurrent int, bin string) (key, what, outcome string) {
 	fbs := []*wire.FaultBackend{wire.NewFaultBackend(), wire.NewFaultBackend()}
 	defer func() {
 		for _, fb := range fbs {
@@ -62,16 +74,76 @@ func c13wRun(seq []string, concurrent int) (key, what, outcome string) {
 	if need("no-healthy-backend") {
 		cfg.HealthChecks.Passive = config.PassiveHealthCheckConfig{Enabled: true, UnhealthyThreshold: 1, UnhealthyTimeout: 3600}
 	}
-	h, err := startHelios(cfg)
-	if err != nil {
-		return "tool", err.Error(), ""
+	var proxyAddr string
+	var dialAdmin func() (*wire.Conn, error)
+	metricsPort := 0
+	if bin == "" {
+		h, err := startHelios(cfg)
+		if err != nil {
+			return "tool", err.Error(), ""
+		}
+		defer h.stop()
+		mux := adminapi.NewMux(h.lb, cfg, h.lb.GetMetricsCollector())
+		al := wire.NewSpoofListener()
+		asrv := &http.Server{Handler: mux}
+		go asrv.Serve(al)
+		defer asrv.Close()
+		proxyAddr = h.addr
+		dialAdmin = func() (*wire.Conn, error) { return wire.Wrap(al.DialFrom("127.0.0.1:5")), nil }
+	} else {
+		pp, ap, mp := freePort(), freePort(), freePort()
+		cfg.Server.Port = pp
+		cfg.AdminAPI = config.AdminAPIConfig{Enabled: true, Port: ap}
+		cfg.Metrics = config.MetricsConfig{Enabled: true, Port: mp, Path: "/metrics"}
+		y, err := yaml.Marshal(cfg)
+		if err != nil {
+			return "tool", err.Error(), ""
+		}
+		f, err := os.CreateTemp("", "verif-c13p-*.yaml")
+		if err != nil {
+			return "tool", err.Error(), ""
+		}
+		f.Write(y)
+		f.Close()
+		defer os.Remove(f.Name())
+		if _, err := config.LoadConfig(f.Name()); err != nil {
+			return "tool", "the harness configuration does not load: " + err.Error(), ""
+		}
+		repo := os.Getenv("VERIF_REPO")
+		if repo == "" {
+			repo = "/repo"
+		}
+		cmd := exec.Command(bin, "-config", f.Name())
+		cmd.Dir = repo
+		var out bytes.Buffer
+		cmd.Stdout, cmd.Stderr = &out, &out
+		if err := cmd.Start(); err != nil {
+			return "tool", err.Error(), ""
+		}
+		done := make(chan error, 1)
+		go func() { done <- cmd.Wait() }()
+		defer func() {
+			cmd.Process.Kill()
+			<-done
+		}()
+		for _, port := range []int{pp, ap, mp} {
+			ok := false
+			for deadline := time.Now().Add(20 * time.Second); time.Now().Before(deadline) && !ok; {
+				if c, err := net.DialTimeout("tcp", fmt.Sprintf("127.0.0.1:%d", port), 300*time.Millisecond); err == nil {
+					c.Close()
+					ok = true
+				} else {
+					time.Sleep(30 * time.Millisecond)
+				}
+			}
+			if !ok {
+				return "tool", "the binary did not open its three listeners: " + lastLines(out.String(), 3), ""
+			}
+		}
+		proxyAddr = fmt.Sprintf("127.0.0.1:%d", pp)
+		dialAdmin = func() (*wire.Conn, error) { return wire.Dial(fmt.Sprintf("127.0.0.1:%d", ap)) }
+		metricsPort = mp
 	}
-	defer h.stop()
-	mux := adminapi.NewMux(h.lb, cfg, h.lb.GetMetricsCollector())
-	al := wire.NewSpoofListener()
-	asrv := &http.Server{Handler: mux}
-	go asrv.Serve(al)
-	defer asrv.Close()
 	issued := 0
 	var mu sync.Mutex
 	send := func(mode, client string) string {
@@ -86,7 +158,7 @@ func c13wRun(seq []string, concurrent int) (key, what, outcome string) {
 		mu.Lock()
 		issued++
 		mu.Unlock()
-		c, err := net.DialTimeout("tcp", h.addr, 5*time.Second)
+		c, err := net.DialTimeout("tcp", proxyAddr, 5*time.Second)
 		if err != nil {
 			return "dial-error"
 		}
@@ -182,7 +254,10 @@ func c13wRun(seq []string, concurrent int) (key, what, outcome string) {
 		Active int    `json:"active_connections"`
 	}
 	get := func(path string, into interface{}) error {
-		c := wire.Wrap(al.DialFrom("127.0.0.1:5"))
+		c, err := dialAdmin()
+		if err != nil {
+			return err
+		}
 		defer c.Close()
 		r := c.Do(&wire.Request{Method: "GET", Target: path, Header: []wire.HeaderLine{{"Host", "a"}, {"Connection", "close"}}, NoBody: true}, 10*time.Second)
 		if r.Err != "" || r.Status != 200 {
@@ -222,6 +297,21 @@ func c13wRun(seq []string, concurrent int) (key, what, outcome string) {
 			key, what = "C13/wire/per-backend-totals-below-requests-received", fmt.Sprintf("%s: backends received %d requests but their published totals add up to %d", desc, sentTo, perBackend)
 		case perBackend > m.Total:
 			key, what = "C13/wire/per-backend-totals-above-total", fmt.Sprintf("%s: per-backend totals %d > total_requests %d", desc, perBackend, m.Total)
+		}
+		if key == "" && metricsPort != 0 {
+			// the metrics listener publishes the same numbers
+			var mm c13wMetrics
+			c, err := wire.Dial(fmt.Sprintf("127.0.0.1:%d", metricsPort))
+			if err != nil {
+				return "tool", err.Error(), outcome
+			}
+			r := c.Do(&wire.Request{Method: "GET", Target: "/metrics", Header: []wire.HeaderLine{{"Host", "m"}, {"Connection", "close"}}, NoBody: true}, 10*time.Second)
+			c.Close()
+			if r.Err != "" || r.Status != 200 || json.Unmarshal(r.Body, &mm) != nil {
+				key, what = "C13/binary/metrics-endpoint-not-readable", fmt.Sprintf("%s: GET /metrics on the metrics port: %d %s %.100q", desc, r.Status, r.Err, r.Body)
+			} else if mm.Total != m.Total || mm.Successful != m.Successful || mm.Failed != m.Failed || mm.RateLimited != m.RateLimited || len(mm.Backends) != len(m.Backends) {
+				key, what = "C13/binary/metrics-port-and-admin-api-disagree", fmt.Sprintf("%s: the metrics port publishes total/successful/failed/rate-limited %d/%d/%d/%d (%d backends), the Admin API %d/%d/%d/%d (%d backends)", desc, mm.Total, mm.Successful, mm.Failed, mm.RateLimited, len(mm.Backends), m.Total, m.Successful, m.Failed, m.RateLimited, len(m.Backends))
+			}
 		}
 		if key == "" || time.Now().After(deadline) {
 			return key, what, outcome
@@ -297,4 +387,67 @@ func TestVerifC13W(t *testing.T) {
 		Rule:       "one evaluation = one sequence of real outcomes (ok, 500, refused, reset mid-body, client disconnect, rate-limited, breaker-rejected, no-healthy-backend, accepted upgrade, declined upgrade) with 1-8 concurrent clients against a fresh instance, audited through the real /v1/metrics and /v1/backends at quiescence; distinct = distinct (sequence, clients) cases",
 		Bound:      fmt.Sprintf("%d sequences (singles x {1,4} clients, doubled outcomes%s, two mixed triples)", len(jobs), map[bool]string{true: ", all ordered pairs, x8 clients, a-ok-a triples", false: ""}[th]),
 		Exhaustive: true, Sample: sample, Extra: map[string]interface{}{"wall_s": time.Since(start).Seconds()}})
+}
+
+// C13, engine P: the same outcome sequences against the real binary - how main() wires the
+// collector into the metrics listener and the Admin API only shows through the process.
+func TestVerifC13P(t *testing.T) {
+	r := vres.Open("C13", "P")
+	defer func() {
+		if err := r.Close(); err != nil {
+			t.Fatal(err)
+		}
+	}()
+	bin := os.Getenv("VERIF_HELIOS_BIN")
+	if bin == "" {
+		r.Note("engine P skipped: VERIF_HELIOS_BIN not set")
+		return
+	}
+	shard, shards := shardOf()
+	start := time.Now()
+	type job struct {
+		seq  []string
+		conc int
+	}
+	var jobs []job
+	for _, a := range c13Outcomes {
+		jobs = append(jobs, job{[]string{a}, 1}, job{[]string{a, a}, 2})
+	}
+	jobs = append(jobs, job{[]string{"ok", "500", "refused"}, 4}, job{[]string{"reset-mid-body", "client-disconnect", "ok"}, 2})
+	var evals int64
+	var outs vres.Outcomes
+	for i, j := range jobs {
+		if i%shards != shard {
+			continue
+		}
+		key, what, _ := c13Run(j.seq, j.conc, bin)
+		if key == "tool" {
+			t.Fatalf("tool error: %s", what)
+		}
+		if key == "skip" {
+			r.Note("skipped %v x%d: %s", j.seq, j.conc, what)
+			continue
+		}
+		if key != "" {
+			fails := 1
+			for k := 0; k < 4; k++ {
+				if k2, _, _ := c13Run(j.seq, j.conc, bin); k2 == key {
+					fails++
+				}
+			}
+			if fails < 5 {
+				r.Note("flaky (%d/5): %s %s", fails, key, what)
+				key = ""
+			}
+		}
+		evals++
+		outs.Add(fmt.Sprintf("%v/%d", j.seq, j.conc))
+		if key != "" {
+			r.Violate(strings.Replace(key, "C13/wire/", "C13/binary/", 1), what+" (real binary)", len(j.seq)*10+j.conc, map[string]interface{}{"engine": "P", "test": "TestVerifC13P", "outcomes": j.seq, "clients": j.conc})
+		}
+	}
+	r.AddScenario(vres.Scenario{Name: "accounting-through-the-real-binary", Engine: "P", Evaluations: evals, Distinct: int64(outs.N()), Outcomes: outs.N(),
+		Rule:       "one evaluation = one sequence of real outcomes against the real binary started from a YAML file (proxy, Admin API and metrics listeners on), audited at quiescence through its Admin API port (/v1/metrics, /v1/backends) with the audit of the wire part; the metrics port must publish the same totals; distinct = distinct (sequence, clients) cases",
+		Bound:      fmt.Sprintf("%d sequences (each of %d outcomes once with 1 client and twice with 2, two mixed triples)", len(jobs), len(c13Outcomes)),
+		Exhaustive: true, Extra: map[string]interface{}{"wall_s": time.Since(start).Seconds()}})
 }
